@@ -1,0 +1,54 @@
+// Copyright 2026 The Go Authors. All rights reserved.
+// Use of this source code is governed by a BSD-style
+// license that can be found in the LICENSE file.
+
+//go:build verif
+
+package autocert
+
+import (
+	"crypto"
+	"time"
+)
+
+// VerifSetDidRenewLoop installs f as the package's testDidRenewLoop seam: f is
+// called by every renewal iteration, with the delay of the next one and the
+// iteration's error, just before the timer is re-armed. A nil f restores the
+// no-op. It exists only for conformance checking.
+func VerifSetDidRenewLoop(f func(next time.Duration, err error)) {
+	if f == nil {
+		f = func(time.Duration, error) {}
+	}
+	testDidRenewLoop = f
+}
+
+// VerifStartRenew calls m.startRenew for the given certificate key, as
+// Manager.cert and Manager.createCert do.
+func VerifStartRenew(m *Manager, domain string, isRSA bool, key crypto.Signer, notBefore, notAfter time.Time) {
+	m.startRenew(certKey{domain: domain, isRSA: isRSA}, key, notBefore, notAfter)
+}
+
+// VerifRenewalProbe reports, for every certificate key registered in
+// m.renewal, whether its domainRenewal holds a timer: "set", "nil", or "busy"
+// when the timer lock is held (a renewal or a stop is in progress).
+// It returns nil when m.renewalMu is held.
+func VerifRenewalProbe(m *Manager) map[string]string {
+	if !m.renewalMu.TryLock() {
+		return nil
+	}
+	defer m.renewalMu.Unlock()
+	out := make(map[string]string, len(m.renewal))
+	for ck, dr := range m.renewal {
+		if !dr.timerMu.TryLock() {
+			out[ck.String()] = "busy"
+			continue
+		}
+		if dr.timer != nil {
+			out[ck.String()] = "set"
+		} else {
+			out[ck.String()] = "nil"
+		}
+		dr.timerMu.Unlock()
+	}
+	return out
+}
